@@ -119,7 +119,7 @@ def run(res):
         res,
         "mutants of valid files of many dtype/flag combinations: every single-bit flip (files <= 300 bytes, a quarter of the files in the quick tier), byte substitutions {0,1,0x7f,0x80,0xff,random}, splices, truncation+garbage, deletions, random bytes behind a valid header; each through whole-file decode plus one of: chunk API with skipping, iterator with limit 1/30/100000, byte-at-a-time writes + iterator; plus random call sequences; non-trivial = distinct (mutant, script)",
         lib.COMMON_TRUSTED, "make -C coq Props/C07.vo && coqc work/Audit_C07.v (Print Assumptions)",
-        ["partial: allocation size/time of validate_prefix_tree (2^max_depth flags), Vec::with_capacity(batch) and the word-level bit packing are exercised, not modelled"])
+        ["partial: allocation size/time of validate_prefix_tree (2^max_depth flags), Vec::with_capacity(batch) are exercised, not modelled; the word-level bit packing is modelled in Words.v and tied by the wordops scripts of C02/C03"])
 
 
 def replay(path):
